@@ -3,7 +3,7 @@ import numpy as np
 
 from .. import graphs as G
 from .. import oracles as O
-from .common import call, close
+from .common import call, close, dtype_variants_agree
 
 PROP = 'C03'
 ANCHORS = ['distance_bin', 'distance_wei', 'distance_wei_floyd', 'breadthdist', 'reachdist', 'charpath',
@@ -53,6 +53,8 @@ def cases(tier, seed):
     for n in ((130, 260, 300) if thorough else (260,)):
         for d in (False, True):
             out.append({'g': ['er', n, 2.5 / n, d, seed + n], 'directed': d, 'ws': n, 'schemes': ['bin', 'int'], 'big': True})
+    for g in G.blob_chains(300 if thorough else 100):
+        out.append({'g': g, 'directed': False, 'ws': 1, 'schemes': ['bin'], 'big': True})
     for g in G.many_paths(200 if thorough else 131):
         out.append({'g': g, 'directed': g[-1] is True, 'ws': 1, 'schemes': ['bin', 'int']})
     return out
@@ -155,6 +157,9 @@ def check_matrix(REC, bct, A, L, scheme, directed, big=False):
                 REC.check(PROP, fname, 'distances', same_dist(Dr), dict(det, got=Dr, expected=D))
                 REC.check(PROP, fname, 'reach_flag', Rr.shape == Dr.shape and bool(np.array_equal(Rr != 0, np.isfinite(Dr)))
                           and bool(np.array_equal((Rr != 0)[off], fin[off])), dict(det, R=Rr, D=Dr))
+        if n <= 40:
+            for fname in ('distance_bin', 'breadthdist', 'reachdist', 'efficiency_bin'):
+                dtype_variants_agree(REC, PROP, fname, getattr(bct, fname), A)
         if n >= 2:
             ok, E = call(REC, PROP, 'efficiency_bin', bct.efficiency_bin, A)
             if ok:
